@@ -549,6 +549,13 @@ impl NamingActor {
             for instance_key in keys {
                 let service_key = instance_key.get_service_key();
                 let short_key = instance_key.get_short_key();
+                // a connection only owns ephemeral instances: a persistent instance that was
+                // (re)registered through it must survive the end of the connection
+                if let Some(instance) = self.get_instance(&service_key, &short_key) {
+                    if !instance.ephemeral {
+                        continue;
+                    }
+                }
                 self.remove_instance(&service_key, &short_key, Some(client_id));
             }
         }
